@@ -169,8 +169,8 @@ _prev_next = models.BUILTIN_MODELS.get(next)
 def _m_next(eng, args, kwargs):
     it = args[0]
     if isinstance(it, Obj) and "g_cur" in it.fields:
-        if len(args) != 2 or args[1] is not None:
-            raise Unsupported("next(lexer) without the None default on the abstract token stream")
+        if len(args) == 2 and args[1] is not None or len(args) > 2:
+            raise Unsupported("next(lexer, default) with a default other than None on the abstract token stream")
         eng.assumptions.add(A_STREAM)
         eng.assumptions.add(A_DEPTH)
         if eng.branch(fresh("bool", "lexer_error")):
@@ -179,6 +179,8 @@ def _m_next(eng, args, kwargs):
         eng.assume(depth_step(c))  # definitional instance for the token being consumed
         c1 = z3.simplify(c + 1)
         it.fields["g_cur"] = Sym(c1, "int")
+        if len(args) == 1 and not eng.branch(_sb(z3.And(c1 >= 0, c1 < NTOK))):
+            raise ProgExc(StopIteration, "end of the token stream")  # next() without a default
         return Sym(z3.simplify(tokref(c1)), "oref")
     if _prev_next is not None:
         return _prev_next(eng, args, kwargs)
